@@ -37,6 +37,17 @@ theorem write_failure_paths :
 
 /-! ## the timers -/
 
+/-- `WriteUpdate` and the keepalive timer (`tstep .writeUpdate`): the keepalive manager is told to restart the timer only on
+a path on which the UPDATE was written successfully, nothing is deferred to the return, and a call that is refused or whose
+write fails leaves the timer alone -/
+theorem write_update_restarts_after_write :
+    (∀ p ∈ pathsOf "WriteUpdate", p.guards.contains ("select send u.resetKATimerCh", true) = true →
+      p.guards.contains ("u.conn.Write()==nil", true) = true ∧
+      p.calls.getLast? = some "u.conn.Write(prependHeader(b,updateMessageType))") ∧
+    (∀ p ∈ pathsOf "WriteUpdate", p.calls.all (fun c => c == "verifPoint" || c == "u.conn.Write(prependHeader(b,updateMessageType))") = true) ∧
+    (pathsOf "WriteUpdate").any (fun p => p.guards.contains ("select send u.resetKATimerCh", true)) = true := by
+  decide
+
 /-- entering OpenSent (`tInit`): the hold timer is created with `longHoldTime` on the one path that reaches OpenSent -/
 theorem open_sent_timer_path :
     ∀ p ∈ pathsOf "sendOpenAndSetHoldTimer", p.ret = ["openSentState"] →
